@@ -78,7 +78,7 @@ def expected_kwargs(el):
     return out
 
 
-def check_element(drv, el, dump, out, stats, what="element", used=False):
+def check_element(drv, el, dump, out, stats, what="element", used=False, unique=True):
     text = repr(el)
     case = {"element": dump, "repr": text, "used_before": used}
     out.note_case({"element": dump}, len(text) > 20)
@@ -88,10 +88,14 @@ def check_element(drv, el, dump, out, stats, what="element", used=False):
         out.failures.append({"case": case, "what": f"repr is not an expression of the expected form: {exc}", "finding": None})
         return
     rep = drv.ask({"op": "repr", "elem": dump})
+    model_back = None
     if "error" not in rep:
         out.traces_validated += 1
         if rep["expr"] != real:
             out.disagreements.append({"what": "repr expression", "impl": real, "model": rep["expr"], **case})
+        elif unique and not isinstance(el, type):
+            # the model's own evaluator (Py/EvalTree.lean, the subject of C18_round_trip_tree) run on the model's repr
+            model_back = rep.get("evalBack")
     else:
         stats["driver-error"] = stats.get("driver-error", 0) + 1
     try:
@@ -99,7 +103,12 @@ def check_element(drv, el, dump, out, stats, what="element", used=False):
     except Exception as exc:  # noqa: BLE001
         out.failures.append({"case": case, "what": f"eval(repr) raised {type(exc).__name__}: {exc}", "finding": None})
         return
-    if not (back == el and el == back):
+    real_back = bool(back == el and el == back)
+    if model_back is not None:
+        stats["model-eval-compared"] = stats.get("model-eval-compared", 0) + 1
+        if model_back != real_back:
+            out.disagreements.append({"what": "eval(repr(x)) == x", "impl": real_back, "model": model_back, **case})
+    if not real_back:
         out.failures.append({"case": case, "what": f"eval(repr(x)) != x: rebuilt {back!r}", "finding": None})
         return
     if isinstance(real, dict) and "call" in real and not isinstance(el, type):
